@@ -663,6 +663,27 @@ func SelfTest() error {
 		return errors.New("G not on curve")
 	}
 
+	// the polynomial root finder: (x-3)(x-5)(x-7)(x^2+1) has exactly the roots 3, 5, 7 (p = 3 mod 4: x^2+1 is irreducible)
+	{
+		f := fpPoly{big.NewInt(1)}
+		for _, r := range []int64{3, 5, 7} {
+			f = polyMulMod(f, fpPoly{Mod(big.NewInt(-r), P), big.NewInt(1)}, fpPoly{big.NewInt(0), big.NewInt(0), big.NewInt(0), big.NewInt(0), big.NewInt(0), big.NewInt(0), big.NewInt(0), big.NewInt(1)})
+		}
+
+		f = polyMulMod(f, fpPoly{big.NewInt(1), big.NewInt(0), big.NewInt(1)}, fpPoly{big.NewInt(0), big.NewInt(0), big.NewInt(0), big.NewInt(0), big.NewInt(0), big.NewInt(0), big.NewInt(0), big.NewInt(1)})
+
+		sum := int64(0)
+		rs := PolyRoots(f...)
+
+		for _, r := range rs {
+			sum += r.Int64()
+		}
+
+		if len(rs) != 3 || sum != 15 {
+			return fmt.Errorf("polynomial root finder: got %v", rs)
+		}
+	}
+
 	if !Mul(N, G()).IsInf() || !Mul(new(big.Int).Sub(N, one), G()).Equal(Neg(G())) {
 		return errors.New("[n]G != O or [n-1]G != -G")
 	}
